@@ -43,11 +43,15 @@ def jfill(n, idv):
     return x
 
 
-def compose(ops, protocol=True):
+def compose(ops, protocol=True, mt=None):
     """Turn model ops (after thread_init) into (script lines, execution records
-    skeleton, expected-bytes table)."""
-    lines = ["proc_init 1 node0 1000", "thread_init 1000", "cpu 0 0",
-             "mark_type 1 0 verifmark"]
+    skeleton, expected-bytes table).  mt = (k, n): script of thread k of an n-thread
+    program (thread ids 1000+k, CPU k; all threads call ovni_thread_free together)."""
+    k, nth = mt if mt else (0, 1)
+    tid = 1000 + k
+    lines = (["proc_init 1 node0 1000"] if k == 0 else []) + (["barrier"] if mt else [])
+    lines += ["thread_init %d" % tid] + (["cpu %d %d" % (c, c) for c in range(nth)] if k == 0 else [])
+    lines += ["mark_type 1 0 verifmark"]
     recs = [("thread_init", {"op": "thread_init"})]
     table = {}
     nid = [0]
@@ -64,7 +68,7 @@ def compose(ops, protocol=True):
         return i
 
     if protocol:
-        add_emit("OHx", struct.pack("<iiQ", 0, 1000, 0x5eed))
+        add_emit("OHx", struct.pack("<iiQ", k, tid, 0x5eed + k))
     for o in ops:
         if o["op"] == "emit" and o.get("kind") == "m":
             i = new_id()
@@ -92,9 +96,14 @@ def compose(ops, protocol=True):
         add_emit("OHe", b"")
     lines.append("flush")
     recs.append(("flush", {"op": "flush"}))
+    if mt:
+        lines.append("barrier")
     lines.append("free")
     recs.append(("free", {"op": "free"}))
-    lines.append("fini")
+    if mt:
+        lines.append("barrier")
+    if k == 0:
+        lines.append("fini")
     return lines, recs, table, False
 
 
@@ -112,6 +121,53 @@ def run_script(drv, bdir, ops, want_emu, keep=None, shim=None):
         if shim:
             env.update({"LD_PRELOAD": shim, "VERIF_SHORTWRITE": "4096"})
         rc, out, err = core.run([drv, sp, lp], timeout=120, env=env, cwd=d)
+        execution, problems, aborted = interpret(lp, recs, table, td, 1000, rc, err)
+        emurun = None
+        if want_emu and not aborted and rc == 0:
+            emurun = emu.ovniemu(bdir, td, ("-l",), timeout=120)
+        if keep and (problems or (emurun is not None and not emurun.accepted)):
+            shutil.copytree(d, keep, dirs_exist_ok=True)
+        return {"execution": execution, "problems": problems, "emu": emurun,
+                "script": lines, "ops": ops}
+    finally:
+        shutil.rmtree(d, ignore_errors=True)
+
+
+def run_mt(drv, bdir, ops_list, want_emu, tmpdir):
+    """An n-thread program: thread k runs ops_list[k]; all threads free together (relocation
+    from OVNI_TMPDIR when tmpdir).  Returns one result per thread (the emulator run, on the whole
+    trace, is attached to the first)."""
+    d = core.mkscratch("rtmt")
+    try:
+        n = len(ops_list)
+        comp = [compose(ops, mt=(k, n)) for k, ops in enumerate(ops_list)]
+        args = []
+        for k, (lines, recs, table, dies) in enumerate(comp):
+            sp = os.path.join(d, "script%d" % k)
+            open(sp, "w").write("\n".join(lines) + "\n")
+            args += [sp, os.path.join(d, "log%d" % k)]
+        td = os.path.join(d, "ovni")
+        env = {"OVNI_TRACEDIR": td}
+        if tmpdir:
+            env["OVNI_TMPDIR"] = os.path.join(d, "tmp")
+        rc, out, err = core.run([drv, "-mt"] + args, timeout=180, env=env, cwd=d)
+        res = []
+        anyabort = False
+        for k, (lines, recs, table, dies) in enumerate(comp):
+            execution, problems, aborted = interpret(os.path.join(d, "log%d" % k), recs, table, td, 1000 + k, rc, err)
+            anyabort = anyabort or aborted
+            res.append({"execution": execution, "problems": problems, "emu": None, "script": lines,
+                        "ops": ops_list[k], "mt": (k, n, tmpdir)})
+        if want_emu and not anyabort and rc == 0:
+            res[0]["emu"] = emu.ovniemu(bdir, td, ("-l",), timeout=180)
+        return res
+    finally:
+        shutil.rmtree(d, ignore_errors=True)
+
+
+def interpret(lp, recs, table, td, tid, rc, err):
+    """driver log + stream on disk -> (execution records for RtStreamTrace, problems, aborted)"""
+    if True:
         log = [json.loads(l) for l in open(lp)] if os.path.exists(lp) else []
         problems = []
         execution = []
@@ -149,9 +205,8 @@ def run_script(drv, bdir, ops, want_emu, keep=None, shim=None):
             problems.append("driver timed out")
         elif rc not in (0, 3):
             problems.append("driver exit status %s: %s" % (rc, err.decode("latin1")[-300:]))
-        emurun = None
         if not aborted and rc == 0:
-            sdir = obs.stream_dir(td, "node0", 1000, 1000)
+            sdir = obs.stream_dir(td, "node0", 1000, tid)
             try:
                 meta, data = obs.read_stream(sdir)
             except Exception as ex:  # noqa
@@ -192,18 +247,15 @@ def run_script(drv, bdir, ops, want_emu, keep=None, shim=None):
             if meta is not None:
                 ov = meta.get("ovni", {})
                 for key in ("lib", "part", "tid", "pid", "loom", "app_id", "require", "finished", "loom_cpus"):
+                    if key == "loom_cpus" and tid != 1000:
+                        continue        # CPUs are registered by one thread of the loom
                     if key not in ov:
                         problems.append("metadata lacks ovni.%s" % key)
                 if meta.get("version") != 3:
                     problems.append("metadata version %r" % meta.get("version"))
-            if want_emu:
-                emurun = emu.ovniemu(bdir, td, ("-l",), timeout=120)
-        if keep and (problems or (emurun is not None and not emurun.accepted)):
-            shutil.copytree(d, keep, dirs_exist_ok=True)
-        return {"execution": execution, "problems": problems, "emu": emurun,
-                "script": lines, "ops": ops}
-    finally:
-        shutil.rmtree(d, ignore_errors=True)
+                if ov.get("tid") != tid:
+                    problems.append("metadata of thread %d names tid %r" % (tid, ov.get("tid")))
+        return execution, problems, aborted
 
 
 def scripts_from_window(tier, rng):
@@ -351,6 +403,17 @@ def main(pid, tier):
     ck.phase('generate')
     results = core.pmap(one, list(enumerate(scripts)), workers=core.NCPU)
     ck.notes["scripts"]["under_short_writes"] = len([k for k in range(len(scripts)) if k % 3 == 1])
+    # multi-threaded protocol-conformant programs: 3 threads of one process, each running one of the
+    # scripts above, all calling ovni_thread_free at the same time; two thirds relocate from OVNI_TMPDIR.
+    # Every thread's stream is validated on its own (C01: exactly what that thread emitted).
+    pool = [ops for ops in (win + walks) if not any(o["op"] == "jumbo" and o["n"] + 16 >= CAP for o in ops)]
+    rng.shuffle(pool)
+    ngroups = min(len(pool) // 3, 30 if tier == "quick" else 400)
+    groups = [(pool[3 * g:3 * g + 3], g % 3 != 2) for g in range(ngroups)]
+    mtres = core.pmap(lambda g: run_mt(drv, bdir, g[0], want_emu, g[1]), groups, workers=max(2, core.NCPU // 3))
+    for rs in mtres:
+        results.extend(rs)
+    ck.notes["scripts"]["three_thread_programs"] = {"programs": ngroups, "relocating_from_tmpdir": sum(1 for g in groups if g[1])}
     ck.phase('replay')
     executions = [r_["execution"] for r_ in results]
     tvr = tv.validate("RtStreamTrace", "RtStreamTrace.cfg", executions, {"op": "reset"},
